@@ -1098,7 +1098,12 @@ def oC02 (st st' : OState) (v : OpView) (c : Ctx) : OState × List String :=
                 else if l.length > want.length then (setBf none false, [s!"C02 read-too-long {tag} returned {l.length} bytes, {want.length} remain"])
                 else (setBf none false, [s!"C02 read-wrong-bytes {tag} returned {l.length} bytes, expected {want.length}"])
               | none => (setBf none false, [])
-            | _ => (setBf none false, [])
+            | _ =>
+              -- reading a tracked file to its end fails although no storage fault was injected: the bytes the
+              -- specification holds cannot be read back (an injected fault is C09's business)
+              if v.io.fault.isNone && c.rk != "err1" && (v.io.res.head? == some "err") then
+                (setBf none false, [s!"C02 read-wrong-bytes {tag} readall failed: {" ".intercalate v.io.res}, expected {(b.content.drop b.pos).length} bytes"])
+              else (setBf none false, [])
           else if c.op == "flush" || c.op == "dropf" then
             -- an injected storage error: the flush did not happen, what the handle holds is unchanged
             if !c.ok && v.io.fault.isSome && c.rk == "err1" then (setBf (some b) fs.truncated, []) else
@@ -1370,7 +1375,10 @@ def stepO (st : OState) (v : OpView) : OState × List String :=
     -- what was written must be what the image holds after a flush
     let cmsgs := cmsgs.filterMap fun m =>
       match m.splitOn " " with
-      | _ :: sig :: rest => if c.op == "flush" || c.op == "dropf" then some s!"C20 content-mismatch ({sig}) {" ".intercalate rest}" else none
+      | _ :: sig :: rest =>
+        -- … and what is read back (files are read from the correct device offsets)
+        if ["flush", "dropf", "read", "readx", "readall"].contains c.op then
+          some s!"C20 content-mismatch ({sig}) {" ".intercalate rest}" else none
       | _ => none
     (st4, msgs ++ cmsgs ++ fmsgs)
   | "C04" => ({ st' with tree := none }, oC04 st' v c)
